@@ -241,5 +241,5 @@ def obs_fields(s, keep):
         if len(f) < 3:
             out.append(step); continue
         st = ";".join(x for x in f[2].split(";") if x.split("=")[0] in keep)
-        out.append(f[0] + " " + f[1] + " " + st)
+        out.append(f[0] + " " + f[1] + " " + st + ("".join(" " + x for x in f[3:])))       # markers of the shadow devices stay visible
     return " | ".join(out)
